@@ -458,4 +458,55 @@ theorem applyOnWindow_shift (cfg : Cfg) (hU : Unbounded cfg) (ht : cfg.trendMeth
     | error e => rfl
     | ok r => simp only [Except.map, Except.bind, step7_shift]
 
+/-! ### the removed trend is the linear trend of the annual means -/
+
+theorem zipWith_ignore_left {α β γ} (h : β → γ) : ∀ (x : List α) (ys : List β), x.length = ys.length →
+    List.zipWith (fun (_ : α) y => h y) x ys = ys.map h
+  | [], [], _ => rfl
+  | [], _ :: _, hl => by simp at hl
+  | _ :: _, [], hl => by simp at hl
+  | _ :: x, y :: ys, hl => by
+      simp only [List.zipWith_cons_cons, List.map_cons, zipWith_ignore_left h x ys (by simpa using hl)]
+
+theorem mem_uniqueYears_of_mem {years : List Int} {y : Int} (h : y ∈ years) : y ∈ uniqueYears years := by
+  unfold uniqueYears
+  exact List.mem_eraseDups.mpr (List.mem_mergeSort.mpr h)
+
+/-- the regression slope step 3 uses for a series: `linregress(unique_years, annual_means).slope` -/
+def trendSlope (x : List Rat) (years : List Int) : Rat :=
+  linSlope ((uniqueYears years).map (fun (y : Int) => (y : Rat))) (yearlyMeans x years)
+
+/-- `mean(unique_years)` -/
+def meanYear (years : List Int) : Rat := mean ((uniqueYears years).map (fun (y : Int) => (y : Rat)))
+
+/-- **what step 3 removes is the within-period linear trend of the annual means**: with a significant regression
+    (and `detrending_with_significance_test`), every value of year `y` loses `slope · (y − mean(unique years))` -/
+theorem dailyTrend_linear (cfg : Cfg) (hsig : cfg.detrendingWithSignificanceTest = true) (x : List Rat)
+    (years : List Int) (hlen : x.length = years.length) :
+    dailyTrend cfg true x years = years.map (fun y => trendSlope x years * ((y : Rat) - meanYear years)) := by
+  unfold dailyTrend annualTrend
+  simp only [hsig, Bool.and_self, if_true]
+  rw [zipWith_ignore_left _ x years hlen]
+  apply List.map_congr_left
+  intro y hy
+  have hU := mem_uniqueYears_of_mem hy
+  have hi : (uniqueYears years).idxOf y < (uniqueYears years).length := List.idxOf_lt_length_iff.mpr hU
+  rw [List.getD_eq_getElem?_getD, List.getElem?_map, List.getElem?_map, List.getElem?_eq_getElem hi]
+  simp only [Option.map, Option.getD, List.getElem_idxOf hi]
+  rfl
+
+/-- not significant (or the significance test switched off): nothing is removed -/
+theorem dailyTrend_zero (cfg : Cfg) (sig : Bool) (h : (sig && cfg.detrendingWithSignificanceTest) = false) (x : List Rat)
+    (years : List Int) (hlen : x.length = years.length) :
+    dailyTrend cfg sig x years = years.map (fun _ => 0) := by
+  unfold dailyTrend annualTrend
+  simp only [h, Bool.false_eq_true, if_false]
+  rw [zipWith_ignore_left _ x years hlen]
+  apply List.map_congr_left
+  intro y hy
+  have hU := mem_uniqueYears_of_mem hy
+  have hi : (uniqueYears years).idxOf y < (uniqueYears years).length := List.idxOf_lt_length_iff.mpr hU
+  rw [List.getD_eq_getElem?_getD, List.getElem?_map, List.getElem?_map, List.getElem?_eq_getElem hi]
+  rfl
+
 end Lemmas.C02
